@@ -402,6 +402,15 @@ class Execer:
                             continue
                         else:
                             raise original_error from None
+                    elif sbpline.count("![]") > line.count("![]"):
+                        # the wrap window held no tokens: an empty ``![]``
+                        # was inserted. Inserting more of them cannot help
+                        # and doubles the line on every retry.
+                        if not greedy:
+                            greedy = True
+                            continue
+                        else:
+                            raise original_error from None
                     # replace the line
                     self._print_debug_wrapping(
                         line, sbpline, last_error_line, last_error_col, maxcol=maxcol
